@@ -13,8 +13,8 @@ type VerifCmap4Entry struct {
 	Indexes           []uint16
 }
 
-// VerifNewCmap4 runs newCmap4 and exposes the segments it built.
-func VerifNewCmap4(cm tables.CmapSubtable4) ([]VerifCmap4Entry, error) {
+// VerifNewCmap4Checked runs newCmap4 and exposes the segments it built.
+func VerifNewCmap4Checked(cm tables.CmapSubtable4) ([]VerifCmap4Entry, error) {
 	c, err := newCmap4(cm)
 	if err != nil {
 		return nil, err
